@@ -1,0 +1,8 @@
+//go:build !verif
+
+// Package vhook provides named yield points for runtime verification builds (build tag verif).
+// Without the tag every function is an empty, inlinable no-op.
+package vhook
+
+// At marks a named point in the code.
+func At(name string) {}
